@@ -118,9 +118,10 @@ class Dispatcher(InstructionGenerator):
             return instructions
 
         if len(environment.fleet_ids) > 0:
-            fleet_ids = environment.fleet_ids
+            # sorted: a vehicle in several fleets keeps the instruction of the fleet visited last
+            fleet_ids = tuple(sorted(environment.fleet_ids))
         else:
-            fleet_ids = frozenset([None])
+            fleet_ids = (None,)
 
         initial_instructions: Tuple[DispatchTripInstruction, ...] = tuple()
 
